@@ -19,6 +19,8 @@ def parseUpCfg (s : String) : UpCfg :=
     match it.splitOn ":" with
     | ["rb", n] => { c with readBuf := natOr n }
     | ["proto", ps] => { c with protocols := some (if ps == "" then [] else (ps.splitOn "|").map hexOr) }
+    -- ProtocolCustom set to the library's own selection rule: same model
+    | ["protoc", ps] => { c with protocols := some (if ps == "" then [] else (ps.splitOn "|").map hexOr) }
     | ["neg", p] => { c with negotiate := some (parseCfg14 (p.replace ";" ",")) }
     | ["ext", ps] => { c with extension := some ((ps.splitOn "|").map hexOr) }
     | ["hdr", h] => { c with header := hexOr h }
